@@ -20,6 +20,8 @@ def decodeOp : PyVal → Option (Op PyVal)
   | .list [.str "observe"] => some (.observe .rows)
   | .list [.str "observe", .str k] => (decodeObs k).map .observe
   | .list [.str "append", r] => some (.append r)
+  -- an append left by an exception at statement `stage` of `append` (index into `Gen.Cursor.appendPoints`)
+  | .list [.str "reject", .int stage, r] => if stage ≥ 0 then some (.reject stage.toNat false r) else none
   | _ => none
 
 def encodeOut : Out PyVal → PyVal
@@ -81,7 +83,7 @@ def handle (op : String) (args : List PyVal) : Option (List PyVal) :=
     let ops ← ops.mapM decodeOp
     let (f0, rows) ← decodeFrame d.toNat frame
     let (f, outs) := Impl.run f0 ops
-    let (s, souts) := run (init d.toNat rows) ops
+    let (s, souts) := run (init d.toNat rows) (Impl.annot f0 ops)
     let store := match Impl.store f with
       | some rs => PyVal.list rs
       | none => PyVal.none
